@@ -89,6 +89,16 @@ CHECKS = {
         "file/line ignored). Known differences are listed per root cause in known_findings.json. Bounds: <=12 options, <=3 files.",
         "DESIGN.md 3/C04",
     ),
+    "C05": (
+        "exploration",
+        "model-based history testing: reference visibility model + user-pick model checked after every generated operation (Hypothesis)",
+        "Choice-rich trees x histories (member y/n, gate options, resets of member / choice / menu, loads assigning several members); "
+        "after every step each choice is compared with the documented three-step selection rule, the exactly-one / none invariants, "
+        "and the header / JSON / CMake views. Exploration over an unbounded history space with an independent model.",
+        "Trusted: vk/refmodel.py for visibilities and the pick life cycle coded in vk/props/c05.py (set y, last '=y' of a loaded file, "
+        "cleared by reset / replacing load). unset_value() on members is not part of the histories. Bounds: <=12 options, <=16 steps.",
+        "DESIGN.md 3/C05",
+    ),
 }
 
 NOT_YET = {}
